@@ -529,7 +529,8 @@ MoveInfo Position::do_move(Move move)
             set_enpassant_square(NO_SQUARE);
     }
 
-    assert(_history_counter < MAX_PLIES);
+    if (_history_counter >= static_cast<int32_t>(_history.size()))
+        _history.resize(2 * _history.size());
     _history[_history_counter++] = _zobrist_hash.get_key();
 
     return create_moveinfo(captured, prev_castling, prev_enpassant_sq,
